@@ -57,13 +57,18 @@ def target_shape(g):
 
 @st.composite
 def cases(draw, tier):
-    emph = draw(st.sampled_from(["any", "any", "any", "any", "ann", "any", "any", "kronprod"]))
+    emph = draw(st.sampled_from(["any", "any", "any", "any", "ann", "any", "any", "kronprod", "any", "any", "any", "any", "ann", "any", "any", "eyesum"]))
     g = gen.TraitGen(draw, avoid=AVOID, dtypes=gen.CPLX + gen.CPLX + gen.ALLDT if emph == "ann" else gen.ALLDT)
     if emph == "ann":
         # annotated wrappers around structured (by construction Hermitian / positive definite / unitary) operators, real
         # and complex, alone or under one combinator: the annotation-driven short-cuts of products and transposes
         tree = g.annotated(g.integer(1, 6), g.pick([0, 1, 1, 2]))
         r, c = IR.denote(tree).shape
+    elif emph == "eyesum":
+        # sums of three or more terms that start with an Identity (I + A + B, I - A - B): the pass-through first term hands
+        # the operand itself to whatever accumulates the sum
+        r = c = g.integer(1, 8)
+        tree = {"k": "sum", "via": g.pick(["op", "ctor", "builtin"]), "ch": [g.k_eye(r, c)] + [g.op(r, c, g.pick([0, 0, 1])) for _ in range(g.integer(2, 3))]}
     elif emph == "kronprod" and "kron" not in AVOID:
         # round 6: products of two Kronecker operators with pairwise conforming leading factors and unequal factor counts
         r, c = g.integer(1, 12), g.integer(1, 12)
